@@ -40,6 +40,7 @@ func check(t run.TB, c Case) bool {
 		return false // C07's concern
 	}
 	if !add.OK || !cr.OK {
+		run.Note("rejected (discarded): %v %v <<%s>> types %v", add, cr, c.Spec.Schema, c.Spec.Types)
 		return false
 	}
 	n, r := lib.AST(s)
@@ -115,6 +116,7 @@ func style(t *rapid.T) *gen.Style {
 	st.Comments = rapid.SampledFrom([]int{0, 0, 1, 2, 3}).Draw(t, "comments")
 	st.EmptyAnn = rapid.SampledFrom([]int{0, 0, 1, 2, 3}).Draw(t, "emptyAnn")
 	st.NoteNextLine = rapid.IntRange(0, 2).Draw(t, "noteNextLine") == 0
+	st.JoinLines = rapid.IntRange(0, 2).Draw(t, "joinLines") == 0 // effective when comments and empty annotations are off
 	if !st.MultiLine {
 		st.MixedAnn = rapid.SampledFrom([]int{0, 0, 1, 2}).Draw(t, "mixedAnn") // inline and multi-line side by side
 	}
